@@ -398,25 +398,29 @@ def digests_for(mod, base_seed, tier, idxs):
     return out
 
 
-def determinism_check(mod, base_seed, tier, k):
+def determinism_check(mod, base_seed, tier, k, children=1):
     idxs = list(range(k))
     a = digests_for(mod, base_seed, tier, idxs)
     b = digests_for(mod, base_seed, tier, idxs)
     if a != b:
         bad = [x[0] for x, y in zip(a, b) if x != y]
         return False, 'in-process rerun differs at indices %s' % bad[:5], 0
-    env = dict(os.environ)
-    hs = str(1 + (base_seed * 7919 + 13) % 4000000)
-    env['PYTHONHASHSEED'] = hs
-    env['VERIF_SEED'] = str(base_seed)
-    p = subprocess.run([os.path.join(VERIF, "check"), mod.ID, '--tier', tier, '--digests',
-                        '0:%d' % k], capture_output=True, text=True, env=env, timeout=600, cwd=VERIF)
-    if p.returncode != 0:
-        return False, 'child interpreter failed: %s' % (p.stderr[-2000:]), 0
-    c = json.loads(p.stdout.strip().splitlines()[-1])
-    if c != a:
-        bad = [x[0] for x, y in zip(a, c) if x != y]
-        return False, 'fresh interpreter (PYTHONHASHSEED=%s) differs at indices %s' % (hs, bad[:5]), 0
+    seeds = []
+    for j in range(children):
+        env = dict(os.environ)
+        hs = str(1 + (base_seed * 7919 + 13 + 104729 * j) % 4000000)
+        seeds.append(hs)
+        env['PYTHONHASHSEED'] = hs
+        env['VERIF_SEED'] = str(base_seed)
+        p = subprocess.run([os.path.join(VERIF, "check"), mod.ID, '--tier', tier, '--digests',
+                            '0:%d' % k], capture_output=True, text=True, env=env, timeout=900, cwd=VERIF)
+        if p.returncode != 0:
+            return False, 'child interpreter failed: %s' % (p.stderr[-2000:]), 0
+        c = json.loads(p.stdout.strip().splitlines()[-1])
+        if c != a:
+            bad = [x[0] for x, y in zip(a, c) if x != y]
+            return False, 'fresh interpreter (PYTHONHASHSEED=%s) differs at indices %s' % (hs, bad[:5]), 0
+    hs = ','.join(seeds)
     return True, 'PYTHONHASHSEED=%s' % hs, k
 
 
@@ -460,7 +464,8 @@ def run_check(pid, tier, base_seed, runs=None, budget=None, jobs=None):
             print('note: known finding %s no longer reproduces (stale entry?)' % kf['key'])
 
     # determinism self-check on a sample of this batch's own seeds
-    det_ok, det_msg, det_n = determinism_check(mod, base_seed, tier, cfg.get('det_sample', 24))
+    det_ok, det_msg, det_n = determinism_check(mod, base_seed, tier, cfg.get('det_sample', 24),
+                                               cfg.get('det_children', 1))
     harness_errors = []
     viols = []
     if not det_ok:
